@@ -74,6 +74,7 @@ class CapJudge:
         # float amounts: sums are exact rationals of the float values (the oracle adds no round-off of its own); `tol`
         # (1e-12 x capacity, 0 for ints and quarters) only absorbs the round-off in the primitive's own float `available`
         self.tol = tol
+        self.broken = False
         self.F = Fraction if tol else (lambda x: x)
         self.held = []          # requests currently held according to the trace
         self.pending = []       # blocked requests not yet observed granted, in arrival order
@@ -153,6 +154,8 @@ class CapJudge:
 
     # ---- sampling
     def sample(self, t):
+        if self.broken:
+            return
         if self.kind == "amount":
             av = self.comp.available
             if av < -self.tol or av > self.cap + self.tol:
@@ -163,6 +166,8 @@ class CapJudge:
                      f"at {ms(t)} trace holds {self.vec(self.held)} but public counters say in use {self.public()}")
 
     def quiescent(self, t, moving=True):
+        if self.broken:
+            return
         fl = self.inflight()
         if any(abs(x) > self.tol for x in fl):
             self.bad("held-plus-available-not-capacity/at-quiescence",
@@ -208,7 +213,7 @@ def cap_strategy(safe):
         start = st.sampled_from([0, 0, 0, 1, 2, 3])
         worker = st.fixed_dictionaries({"start": start, "ops": _ops(hold)})
         return st.fixed_dictionaries({
-            "cap": st.integers(1, 5), "q": st.sampled_from([1, 1, 1, 4, 10, 7, 7]), "mr": st.integers(0, 3),
+            "cap": st.integers(1, 5), "q": st.sampled_from([1, 1, 1, 4, 10, 7, 7, 9, 9]), "mr": st.integers(0, 3),
             "workers": st.lists(worker, min_size=2, max_size=8 if big else 6),
         })
     return s
@@ -222,6 +227,9 @@ def _build(prim, case):
         q = case.get("q")
         if q == 10:                       # decimal fractions: capacity 0.1 .. 0.5, grants of 0.1 .. 0.5
             capf = cap / 10
+            return Resource("res", capf), dict(kind="amount", cap=capf, tol=1e-12 * capf)
+        if q == 9:                        # decimal hairs (5e-10, 1e-9): the primitive's own sums and differences round
+            capf = cap * 0.25
             return Resource("res", capf), dict(kind="amount", cap=capf, tol=1e-12 * capf)
         if q == 7:                        # quarters plus amounts a hair (2^-31) above / below them and tiny amounts (2^-30, 2^-31; all <= 1e-9)
             capf = cap * 0.25
@@ -260,6 +268,9 @@ def lock_execute(prim, obl):
             a = int(op.get("a", 0))
             if qmode == 10:
                 return min((1 + a % 5) / 10, cap)
+            if qmode == 9:
+                k = (1 + a % 5) * 0.25
+                return min([k, k, k + 5e-10, 1e-9, 5e-10, k - 5e-10][int(op.get("m", 0)) % 6], cap)
             if qmode == 7:
                 k = (1 + a % 5) * 0.25
                 # hairs are powers of two (2^-31 = 4.7e-10, 2^-30 = 9.3e-10 <= 1e-9): every sum and difference the
@@ -347,6 +358,7 @@ def lock_execute(prim, obl):
                     comp.release_read()
             except (ValueError, RuntimeError) as e:
                 bad("release-raised", f"at {ms(run.t)} release by w{wk.i} of ({mode},{q['a']}): {type(e).__name__}: {e}")
+                J.broken = True          # the grant could not be returned: conservation / liveness clauses would only echo this
             return "ok"
 
         run = WorkerRun([comp], wl, op_fn, after_event=lambda run: J.sample(run.t),
@@ -355,7 +367,9 @@ def lock_execute(prim, obl):
         run.run()
         if finish_common(r, bad, run, J):
             J.quiescent(run.t, moving=False)
-            if not run.all_done:
+            if J.broken:
+                pass
+            elif not run.all_done:
                 bad("waiter-never-served", f"run ended at {ms(run.t)} with unfinished workers {run.unfinished()} "
                     f"blocked {[(p['w'], p['m'], p['a']) for p in J.pending]} holders {[(h['w']) for h in J.held]}")
             elif J.held or any(abs(x) > J.tol for x in J.public()):
